@@ -416,6 +416,22 @@ func (x *Exec) finish(fd *ast.FuncDecl) {
 			}
 		}
 	}
+	// witnesses declared in an inner scope (a loop body that contains every return): bind them by name
+	for _, w := range ct.Witness {
+		if _, ok := env.lookup(w); ok {
+			continue
+		}
+		var cands []types.Object
+		for obj := range final.vars {
+			if obj.Name() == w && obj.Pos().IsValid() {
+				cands = append(cands, obj)
+			}
+		}
+		sort.Slice(cands, func(i, j int) bool { return cands[i].Pos() < cands[j].Pos() })
+		if len(cands) > 0 {
+			env.names[w] = final.vars[cands[0]]
+		}
+	}
 	// use-lemma: instantiate proved lemmas at the exit state (their requires are obligations)
 	for _, ul := range ct.UseLemmas {
 		ulCond := tTrue
